@@ -30,10 +30,17 @@ import (
 func sortQueue(queues []*Queue, fairMaxResources []*resources.Resource, sortType policies.SortPolicy, considerPriority bool) {
 	sortingStart := time.Now()
 	if sortType == policies.FairSortPolicy {
+		// the fair max list is indexed like the queues before sorting: sorting moves the queues only, look it up by queue
+		fairMax := make(map[*Queue]*resources.Resource, len(queues))
+		for i, queue := range queues {
+			if i < len(fairMaxResources) {
+				fairMax[queue] = fairMaxResources[i]
+			}
+		}
 		if considerPriority {
-			sortQueuesByPriorityAndFairness(queues, fairMaxResources)
+			sortQueuesByPriorityAndFairness(queues, fairMax)
 		} else {
-			sortQueuesByFairnessAndPriority(queues, fairMaxResources)
+			sortQueuesByFairnessAndPriority(queues, fairMax)
 		}
 	} else {
 		if considerPriority {
@@ -53,7 +60,7 @@ func sortQueuesByPriority(queues []*Queue) {
 	})
 }
 
-func sortQueuesByPriorityAndFairness(queues []*Queue, fairMaxResources []*resources.Resource) {
+func sortQueuesByPriorityAndFairness(queues []*Queue, fairMaxResources map[*Queue]*resources.Resource) {
 	sort.SliceStable(queues, func(i, j int) bool {
 		l := queues[i]
 		r := queues[j]
@@ -66,8 +73,8 @@ func sortQueuesByPriorityAndFairness(queues []*Queue, fairMaxResources []*resour
 			return false
 		}
 
-		comp := resources.CompUsageRatioSeparately(l.GetAllocatedResource(), l.GetGuaranteedResource(), fairMaxResources[i],
-			r.GetAllocatedResource(), r.GetGuaranteedResource(), fairMaxResources[j])
+		comp := resources.CompUsageRatioSeparately(l.GetAllocatedResource(), l.GetGuaranteedResource(), fairMaxResources[l],
+			r.GetAllocatedResource(), r.GetGuaranteedResource(), fairMaxResources[r])
 
 		if comp == 0 {
 			return resources.StrictlyGreaterThan(resources.Sub(l.GetPendingResource(), r.GetPendingResource()), resources.Zero)
@@ -76,13 +83,13 @@ func sortQueuesByPriorityAndFairness(queues []*Queue, fairMaxResources []*resour
 	})
 }
 
-func sortQueuesByFairnessAndPriority(queues []*Queue, fairMaxResources []*resources.Resource) {
+func sortQueuesByFairnessAndPriority(queues []*Queue, fairMaxResources map[*Queue]*resources.Resource) {
 	sort.SliceStable(queues, func(i, j int) bool {
 		l := queues[i]
 		r := queues[j]
 
-		comp := resources.CompUsageRatioSeparately(l.GetAllocatedResource(), l.GetGuaranteedResource(), fairMaxResources[i],
-			r.GetAllocatedResource(), r.GetGuaranteedResource(), fairMaxResources[j])
+		comp := resources.CompUsageRatioSeparately(l.GetAllocatedResource(), l.GetGuaranteedResource(), fairMaxResources[l],
+			r.GetAllocatedResource(), r.GetGuaranteedResource(), fairMaxResources[r])
 		if comp == 0 {
 			lPriority := l.GetCurrentPriority()
 			rPriority := r.GetCurrentPriority()
